@@ -106,6 +106,24 @@ void sim_ambient_entropy_seed(uint64_t seed)
 	g_ambient_init = 1;
 }
 
+/* Allocator seam: libgmssl is compiled with -Dmalloc=gmsim_lib_malloc (build.py), so exactly the library's own
+ * allocations come through here; harness and libc-internal allocations do not.  Counted per node, so the index of
+ * a failing call does not depend on the interleaving. */
+void *gmsim_lib_malloc(size_t n)
+{
+	if (t_task >= 0) {
+		Node *nd = &g_sim.nodes[sim_cur()->node];
+		int64_t idx = (int64_t)nd->nmalloc++;
+		if (nd->afail_at >= 0 && (idx == nd->afail_at || (nd->afail_rest && idx > nd->afail_at))) {
+			nd->afail_fired++;
+			sim_trace(EV_NOTE, 0xa11c, idx);
+			errno = ENOMEM;
+			return NULL;
+		}
+	}
+	return malloc(n);
+}
+
 int __wrap_getentropy(void *buf, size_t len)
 {
 	if (t_task < 0) {
